@@ -256,6 +256,16 @@ def real_ecos_stream(ctx):
         ctx.count('real_ecos', 'max_iters=1 -> ' + st)
         if st == 'solver failure' and not (math.isnan(val) and np.all(np.isnan(x.value))):
             fails.append('forced failure: value %r / variables %r should be NaN' % (val, x.value.tolist()))
+        # the options of one call do not outlive it: the same Problem solved again without a limit reaches the optimum
+        st2, val2 = prob.solve(solver='ECOS', verbose=False)
+        ctx.count('real_ecos', 'solve after a forced failure -> ' + st2)
+        if st == 'solver failure' and not (st2 == 'solved' and abs(val2 + 1.0) <= 1e-5 and np.all(np.isfinite(x.value))):
+            fails.append('after solve(max_iters=1) failed, a plain solve() of the same Problem reports (%s, %r) with x = %r; expected (solved, -1)'
+                         % (st2, val2, x.value.tolist()))
+        st3, val3 = prob.solve(solver='ECOS', verbose=False, max_iters=1)
+        st4, val4 = prob.solve(solver='ECOS', verbose=False, max_iters=200)
+        if st3 == 'solver failure' and not (st4 == 'solved' and abs(val4 + 1.0) <= 1e-5):
+            fails.append('solve(max_iters=200) after solve(max_iters=1) reports (%s, %r); expected (solved, -1)' % (st4, val4))
     return fails
 
 
